@@ -398,6 +398,12 @@ def corpus():
         hand(gen, ["(init x0 100 (a i1))", "(init x1 101 (a i1))", "(init x2 102 (a s\"a\"))", "(init x3 101 (a b1))", "(eq x0 x1)", "(eq x1 x0)",
                    "(eq x1 x2)", "(eq x1 x3)", "(eq x3 x1)", '(init x4 101 (a s"a"))', '(init x5 100 (a s"a"))', "(eq x5 x2)", "(eq x2 x5)",
                    "(upd x6 x1 (a i5))", "(upd x7 x1 (a s\"no\"))", "(eq x6 x1)"], sub=gsub),
+        # `Self` in an inherited attribute means the class being constructed: a subclass that merely inherits a recursive
+        # attribute does not take an instance of its base for it (an instance of the subclass is fine for the base)
+        hand([plain(100, f"(v {I} i0) (nxt (opt self) N)"), plain(103, f"(v {I} i0) (nxt (opt self) N) (d {I} i0)", "(base 100)")],
+             ["(init x0 100 (v i1))", "(init x1 103 (v i2))", "(init x2 103 (nxt (I 100 7 (v i1) (nxt N))))", "(init x3 103 (nxt (I 103 8 (v i1) (nxt N) (d i0))))",
+              "(init x4 100 (nxt (I 103 9 (v i1) (nxt N) (d i0))))", "(init x5 100 (nxt (I 100 10 (v i3) (nxt N))))", "(upd x6 x1 (nxt (I 100 11 (v i1) (nxt N))))",
+              "(upd x7 x1 (nxt (I 103 12 (v i1) (nxt N) (d i0))))", "(asdict x3)", "(asdict x4)"], sub=sub),
         # un-validated updated / isinstance-based __eq__ mutants
         hand(fam, ['(init x0 100 (a (D)))', '(upd x1 x0 (a (L i1)))', '(upd x2 x0 (b s"ab"))', "(upd x3 x0 (b (L i1 i2)))", "(eq x3 x0)", "(eq x0 x3)"], sub=sub),
     ]
